@@ -295,7 +295,14 @@ fn special_cases() -> Vec<(u8, usize, usize)> {
 }
 
 fn special_case(acc: &mut Acc, idx: u64, c: (u8, usize, usize)) {
-    let sp = special12();
+    special_case_n(acc, idx, c, 12)
+}
+fn special_case_n(acc: &mut Acc, idx: u64, c: (u8, usize, usize), take: usize) {
+    let mut sp = special12();
+    // for the reduced (Miri) alphabet keep 0.5, NaN, +inf, -3e38
+    if take < sp.len() {
+        sp = vec![0.5, f32::NAN, f32::INFINITY, -3e38];
+    }
     let n = sp.len();
     let px: Vec<[f32; 3]> = (0..n * n * n).map(|i| [sp[i / (n * n)], sp[(i / n) % n], sp[i % n]]).collect();
     let (w, h) = (n * n, n);
@@ -484,6 +491,57 @@ pub fn run(tier: Tier) -> Report {
     rep.guard_bucket("special-float image converted: no unsafe precondition violated");
     rep.guard_bucket("encode: dims fit subsampling, Ok");
     rep
+}
+
+/// The sub-box that is replayed under Miri (thorough tier): single-threaded, a few thousand
+/// executions. Miri also sees UB classes no hook covers (aliasing, uninitialised reads, the
+/// from_raw_parts_mut flattening, to_int_unchecked preconditions).
+pub fn miri_box() -> Acc {
+    let mut acc = Acc::default();
+    // geometry: luma <= 3x3, full product restricted to padding {0,1}, plus every single deviation
+    let mut idx = 0u64;
+    for s in small_box(3) {
+        if s.p[0].xpad == 17 {
+            continue;
+        }
+        // only frames the constructor accepts do any work beyond Yuv::new
+        decode_dyn(&mut acc, idx, &s);
+        idx += 1;
+    }
+    for b in bases(false).into_iter().filter(|b| b.p[0].w <= 4 && b.p[0].h <= 4 && b.p[0].xpad <= 1) {
+        for d in deviations(&b) {
+            let mut s = b;
+            apply(&mut s, d);
+            decode_dyn(&mut acc, idx, &s);
+            idx += 1;
+        }
+    }
+    for e in enc_cases(Tier::Quick).into_iter().filter(|e| e.w <= 4 && e.h <= 4) {
+        encode_case(&mut acc, idx, &e);
+        idx += 1;
+    }
+    // every special value into every curve, both directions
+    let sp: Vec<u32> = super::c18::specials().iter().map(|x| x.to_bits()).collect();
+    for cd in 0..26u64 {
+        curve_range(&mut acc, Some(&sp), sp.len() as u64, cd * sp.len() as u64, (cd + 1) * sp.len() as u64);
+    }
+    // direct helper calls
+    for &x in super::c18::specials().iter() {
+        let _ = guarded(|| yuvxyb_math::cbrtf(x));
+        let _ = guarded(|| yuvxyb_math::expf(x));
+        for &y in super::c18::specials().iter() {
+            let _ = guarded(|| yuvxyb_math::powf(x, y));
+        }
+        acc.transitions += 52;
+    }
+    // special-float images through a covering subset of the composite conversions
+    for (i, c) in special_cases().into_iter().enumerate() {
+        if i % 37 == 0 || c.0 >= 4 {
+            special_case_n(&mut acc, idx, c, 4);
+            idx += 1;
+        }
+    }
+    acc
 }
 
 pub fn replay(case: &Value) -> (bool, String) {
